@@ -61,6 +61,7 @@ func c06NewModel(c *rt.Ctx, rel string) *c06Model {
 	for _, f := range m.funcs {
 		add(f)
 	}
+	c06Cur = m
 	return m
 }
 
@@ -156,7 +157,7 @@ func (m *c06Model) dataInserts(fn *ssa.Function) map[*ssa.MapUpdate]string {
 	out := map[*ssa.MapUpdate]string{}
 	for _, in := range an.Instrs(fn, false) {
 		if mu, ok := in.(*ssa.MapUpdate); ok {
-			if k, _, ok := an.FieldOf(mu.Map); ok && c06IsData(k) {
+			if k, ok := c06MapField(mu.Map); ok && c06IsData(k) {
 				out[mu] = k
 			}
 		}
@@ -240,7 +241,7 @@ func c06DeleteOf(in ssa.Instruction) (string, bool) {
 		return "", false
 	}
 	if b, ok := call.Call.Value.(*ssa.Builtin); ok && (b.Name() == "delete" || b.Name() == "clear") && len(call.Call.Args) > 0 {
-		if k, _, ok := an.FieldOf(call.Call.Args[0]); ok && strings.HasPrefix(k, dutydb+".") {
+		if k, ok := c06MapField(call.Call.Args[0]); ok && strings.HasPrefix(k, dutydb+".") {
 			return k, true
 		}
 	}
